@@ -20,7 +20,60 @@ def _arr(x):
 
 
 def is_mcm(op):
-    return type(op).__name__ in ("MidMeasure", "MidMeasureMP") or op.name == "MidMeasureMP"
+    return type(op).__name__ in ("MidMeasure", "MidMeasureMP", "PauliMeasure") or op.name == "MidMeasureMP"
+
+
+def is_pauli_measure(op):
+    return type(op).__name__ == "PauliMeasure"
+
+
+_P2 = {"I": np.array([[1, 0], [0, 1]], dtype=object), "X": np.array([[0, 1], [1, 0]], dtype=object), "Y": np.array([[0, -1j], [1j, 0]], dtype=object), "Z": np.array([[1, 0], [0, -1]], dtype=object)}
+
+
+def _pauli_word_matrix(word, wires, W):
+    M = np.array([[1]], dtype=object)
+    for c in word:
+        M = np.kron(M, _P2[c])
+    return sx.embed(M, list(wires), W)
+
+
+def general_branch(tape, W, assignment, psi0=None):
+    """like branch_state, but the outcome assigned to a measurement may be a solver term m with m*(m-1) == 0: the projection is
+    written as (1-m)*P0 + m*P1 (computational measurement) resp. (1 + (1-2m) P)/2 (Pauli-product measurement); a Conditional is
+    applied iff bool(condition) - on solver terms that is a solver-decided fork of the execution."""
+    n = len(W)
+    if psi0 is None:
+        psi = np.zeros(2 ** n, dtype=object)
+        psi[0] = 1
+    else:
+        psi = np.array(psi0, dtype=object)
+    for op in tape.operations:
+        if is_pauli_measure(op):
+            m = assignment[op]
+            word = op.hyperparameters.get("pauli_word") if hasattr(op, "hyperparameters") and "pauli_word" in op.hyperparameters else op.pauli_word
+            Ppsi = np.dot(_pauli_word_matrix(word, op.wires, W), psi)
+            psi = (psi + Ppsi * (1 - 2 * m)) * 0.5
+            continue
+        if is_mcm(op):
+            m = assignment[op]
+            pos = W.index(op.wires[0])
+            p0, p1 = _project(psi, pos, n, 0, op.reset), _project(psi, pos, n, 1, op.reset)
+            psi = p0 * (1 - m) + p1 * m
+            continue
+        if is_cond(op):
+            val = op.meas_val.concretize(assignment)
+            if not bool(val):
+                continue
+            op = op.base
+        if op.name in ("Snapshot", "Barrier", "WireCut"):
+            continue
+        ws = list(op.wires)
+        if not ws:
+            M = _arr(qp.matrix(op, wire_order=W[:1]))
+            psi = np.dot(sx.embed(M, W[:1], W), psi)
+            continue
+        psi = np.dot(sx.embed(_arr(qp.matrix(op, wire_order=ws)), ws, W), psi)
+    return psi
 
 
 def is_cond(op):
